@@ -78,10 +78,13 @@ def Quirks.asis : Quirks :=
     atRootKeepsRule := true, compressedDropsBang := true, commentInterpExpandedOnly := true,
     hashCommentDropped := true, vendorKeyframesPrefixed := true,
     compressedMultilineGarbled := true }
-/-- the code after the repairs dcd9ee6, b20c1a1, 206f6e3, 01d06ad, 242f60b: the three open
-findings remain -/
-def Quirks.now : Quirks :=
+/-- the code after the repairs dcd9ee6, b20c1a1, 206f6e3, 01d06ad, 242f60b (three findings open) -/
+def Quirks.afterRound1 : Quirks :=
   { closeSwallows := true, mediaInMediaNested := true, atRootKeepsRule := true }
+/-- the code after f162538 (`AtRootDest`) and 34ff818 (at-rule in a nested-property block is an
+error; the code refuses it in `start_atmedia`/`start_atrule`, the model when the frame is
+dropped — the run is an error either way): only `@media` in `@media` is left -/
+def Quirks.now : Quirks := { mediaInMediaNested := true }
 
 /-- `css::BodyItem` (what may sit inside a `css::Rule`). -/
 inductive BodyItem (σ : Type) where
